@@ -1,6 +1,6 @@
 #!/bin/sh
 # run every registered quick check; print one line per check
-cd /verif
+cd "$(dirname "$0")/.."
 for p in $(python3 -c "import json; print(' '.join(c['property_id'] for c in json.load(open('MANIFEST.json'))['checks']))"); do
 	OUT=$(./check $p ${1:-quick} 2>&1); RC=$?
 	echo "$p exit=$RC $(echo "$OUT" | tail -1)"
